@@ -36,6 +36,17 @@ CHECKS = {
              "(parse, expand with template_fn, #invoke of an echo module) on exhaustive short and random argument lists.",
         note=TRUST + "regex engine, lupa and the Lua VM exercised not modelled; mw.ustring stubbed; plain-text arguments only.",
         ref="DESIGN.md section 4 C14"),
+    "C16": dict(
+        technique="Coq proof (sound balance checker) over a skeleton regenerated from core.py each run + dynamic oracle",
+        text="Theorems c16_check_sound (a summary-based balance check is sound for every terminating execution of a "
+             "nondeterministic push/pop/call/loop/branch skeleton, including recursion), c16_skeleton_checks (the skeleton "
+             "that translate/skeleton.py extracts from Wtp.expand and its nested functions on this run passes the check) and "
+             "c16_expand_balanced (hence every returning call restores the depth). Message-record keys/context, start_page "
+             "clearing, flat pages never 'too deep' and the external callees are checked by running the real context on "
+             "generated pages x option sets x repeat counts.",
+        note=TRUST + "translator is trusted (fail-closed); external callees (call_lua_sandbox, call_parser_function, hooks) "
+             "assumed balanced in the proof and exercised dynamically; exceptions escaping expand() are outside the property.",
+        ref="DESIGN.md section 4 C16"),
 }
 
 NOT_YET = "check not built yet in this round (planned, see DESIGN.md section 8)"
